@@ -558,7 +558,8 @@ Definition lin_ok (lo hi : Q) (num : nat) (res : list Q) : Prop :=
 Definition vec_ok (v : vcase) : Prop :=
   match v with
   | VLin lo hi num res => lin_ok lo hi num res
-  | VLog lo hi num base res => pows_ok base (logspace_exponents lo hi num) res = true      (* not interpreted: partial *)
+  | VLog lo hi num base res =>      (* not interpreted: partial *)
+      pows_ok base (logspace_exponents lo hi num) res = true /\ geo_prog res = true
   | VSum xs r => obs_near (tol_sum xs) (Qsum xs) r
   | VMap fid xs r1 r2 u =>
       Forall2 Qeq (map (vec_fun fid) xs) r1 /\ Forall2 Qeq (map (vec_fun fid) xs) r2 /\ u = 1%Z   (* input unmodified *)
@@ -587,7 +588,7 @@ Proof.
   destruct v as [lo hi num res | lo hi num base res | xs r | fid xs r1 r2 u | xss r u]; cbn [check_vec vec_ok]; intro H;
     injection H as H _.
   - apply lin_sound. exact H.
-  - exact H.
+  - breflect. split; assumption.
   - apply xwithin_fin in H. eapply obs_near_eq; [apply vsum_eq | reflexivity | exact H].
   - breflect. unfold vectorize, vmap in *. repeat split; [apply list_Qeq_sound | apply list_Qeq_sound |]; assumption.
   - breflect. unfold vconcat in *. split; [apply list_Qeq_sound|]; assumption.
